@@ -80,13 +80,20 @@ def ordered_sets():
         del tsmod.set
 
 
-def observe_build(order):
-    """real build_graph + constructor logic on an explicit order"""
+SUPPLY_FORMS = {
+    "list": list, "tuple": tuple, "generator": lambda o: (t for t in o), "iter": lambda o: iter(list(o)),
+    "dict-keys": lambda o: dict.fromkeys(o).keys(), "filter": lambda o: filter(lambda t: True, o),
+    "reversed-twice": lambda o: reversed(list(reversed(list(o)))),
+}
+
+
+def observe_build(order, form="list"):
+    """real build_graph + constructor logic on an explicit order (supplied as a list, or in another iterable form)"""
     with warnings.catch_warnings(record=True) as w:
         warnings.simplefilter("always")
         try:
             with ordered_sets():
-                ts = VisionsTypeset(list(order))
+                ts = VisionsTypeset(SUPPLY_FORMS[form](order))
         except StopIteration:
             return {"err": "StopIteration"}
         except nx.NetworkXUnfeasible:
@@ -202,6 +209,20 @@ def run_graph(tier, seed):
                 if msg:
                     fails.append({"property": "C14", "signature": "not-wellformed", "what": msg,
                                   "order": [str(t) for t in order], "observed": obs})
+        if closed and len(seen) % 5 == 0:
+            # however the types are handed over (tuple, generator, iterator, dict keys, filter object ...): same typeset
+            for form in SUPPLY_FORMS:
+                if form == "list":
+                    continue
+                alt = observe_build(orders[2], form)
+                if canon([alt.get("types"), alt.get("root"), sorted(map(tuple, alt.get("edges", []))), alt.get("err")]) != \
+                        canon([per[2].get("types"), per[2].get("root"), sorted(map(tuple, per[2].get("edges", []))), per[2].get("err")]):
+                    fails.append({"property": "C14", "signature": "supply-form-dependent",
+                                  "what": "types supplied as a %s give %s / %s, as a list %s / %s" % (
+                                      form, alt.get("types", alt.get("err")), len(alt.get("edges", [])),
+                                      per[2].get("types", per[2].get("err")), len(per[2].get("edges", []))),
+                                  "order": [str(t) for t in orders[2]]})
+                    break
         if closed:
             # whatever order: same types/root/edge set
             views = [canon([p.get("types"), p.get("root"), sorted(map(tuple, p.get("edges", []))), p.get("err")]) for p in per]
@@ -389,6 +410,10 @@ def run_algebra(tier, seed):
                 direct = VisionsTypeset(set(want))
             eg = sorted((str(a), str(b), bool(d["relationship"].inferential)) for a, b, d in res.relation_graph.edges(data=True))
             ed = sorted((str(a), str(b), bool(d["relationship"].inferential)) for a, b, d in direct.relation_graph.edges(data=True))
+            # ... and both are exactly the declared relations among the types (independent of the constructor)
+            decl = sorted((str(r.related_type), str(t), bool(r.inferential)) for t in want for r in t.get_relations() if r.related_type in want)
+            if ed != decl and eg == ed:
+                ed = decl
             if eg != ed:
                 missing = [e for e in ed if e not in eg]
                 extra = [e for e in eg if e not in ed]
